@@ -1,2 +1,204 @@
-(** C17 — property theorems only. *)
+(** C17 — property theorems only: statement, [exact] of a lemma proved in Proofs/C17_Sampling.v, [Print Assumptions].
+    Model: Model/C17_Sampling.v (mirrors pybrops/core/random/sampling.py and core/util/array.py:sliceaxisix). *)
+From Coq Require Import Permutation Sorting.Sorted Qround PrimFloat.
 From PV Require Import Lib.Common Model.C17_Sampling Proofs.C17_Sampling.
+
+(** * stochastic universal sampling *)
+
+(** Ideal (exact-rational) pointers: for every non-negative weight vector with positive sum, every order in which the
+    elements are laid out (in particular every tie-breaking of the descending sort), every k >= 1, every offset in
+    [0, tot/k) and every shuffle permutation, the call returns exactly k draws, element i is drawn floor or ceiling
+    of its expected count p_i*k/tot times, and an element of zero weight is never drawn. *)
+Theorem C17_sus_count_floor_ceil_no_zero_weight :
+  forall (p : list Q) (order : list nat) (k : nat) (off : Q) (perm : list nat),
+  Forall (fun x => 0 <= x) p -> 0 < sumQ p -> Permutation order (seq 0 (length p)) -> (0 < k)%nat ->
+  0 <= off -> off < sumQ p / inject_Z (Z.of_nat k) -> Permutation perm (seq 0 k) ->
+  exists sel, sus_q p order k off perm = Some sel /\ length sel = k /\
+    forall i, (i < length p)%nat ->
+      (Qfloor (nth i p 0 * inject_Z (Z.of_nat k) / sumQ p)%Q <= Z.of_nat (count_nat i sel)
+       <= Qceiling (nth i p 0 * inject_Z (Z.of_nat k) / sumQ p)%Q)%Z
+      /\ (nth i p 0 == 0 -> count_nat i sel = 0%nat).
+Proof. exact sus_q_spec. Qed.
+Print Assumptions C17_sus_count_floor_ceil_no_zero_weight.
+
+(** Any pointers (this is the statement that also covers the binary64 pointers the code computes, [sus_f]): along
+    non-decreasing cumulative weights, a non-decreasing pointer list selects position j exactly once per pointer lying
+    in [c_(j-1), c_j) (first cell open to the left, last cell open to the right). *)
+Theorem C17_sus_walk_cell_count : forall (cs ptrs : list Q) (j : nat),
+  StronglySorted Qle cs -> StronglySorted Qle ptrs -> (j < length cs)%nat ->
+  count_nat j (sus_walk cs 0 ptrs) = length (filter (in_cell cs j) ptrs).
+Proof. exact walk_count. Qed.
+Print Assumptions C17_sus_walk_cell_count.
+
+(** Any pointers, partial form of "never an element of zero weight" that also holds for the binary64 pointers: a position
+    whose cumulative weight equals the previous one is never selected, provided — when it is the last position — every
+    pointer stays strictly below the total (the guard the rounded last pointer of [C17_sus_float_zero_weight_refuted] breaks) *)
+Theorem C17_sus_zero_weight_partial : forall (cs ptrs : list Q) (j : nat),
+  StronglySorted Qle cs -> StronglySorted Qle ptrs -> (1 <= j < length cs)%nat ->
+  nth j cs 0 == nth (j - 1) cs 0 ->
+  (j = (length cs - 1)%nat -> Forall (fun p => p < nth j cs 0) ptrs) ->
+  count_nat j (sus_walk cs 0 ptrs) = 0%nat.
+Proof. exact walk_zero_cell. Qed.
+Print Assumptions C17_sus_zero_weight_partial.
+
+(** binary64 model: exactly k draws for every non-empty weight vector, whatever the rounding (the defect repaired in
+    commit 2efef9f2 was a wrong number of pointers) *)
+Theorem C17_sus_float_count : forall (p : list float) order k off perm,
+  p <> [] -> (0 < k)%nat -> length perm = k -> length order = length p ->
+  exists sel, sus_f p order k off perm = Some sel /\ length sel = k.
+Proof. exact sus_f_count. Qed.
+Print Assumptions C17_sus_float_count.
+
+(** binary64 model, partial: when the cumulative sums are exact and every binary64 pointer falls into the same cell as the
+    ideal pointer, the binary64 selection is the ideal selection (to which the first theorem applies) *)
+Theorem C17_sus_float_partial : forall (p : list float) order k off perm,
+  let pq := map f2q p in
+  let cs := cumsum (gather 0 pq order) in
+  Forall2 Qeq (map f2q (fcumsum (gather 0%float p order))) cs ->
+  (0 < k)%nat -> 0 <= sumQ pq / inject_Z (Z.of_nat k) ->
+  StronglySorted Qle (map f2q (sus_ptrs_f (fsum p) k off)) ->
+  Forall2 (fun a b => locate cs a = locate cs b) (map f2q (sus_ptrs_f (fsum p) k off)) (sus_ptrs_q (sumQ pq) k (f2q off)) ->
+  sus_f p order k off perm = sus_q pq order k (f2q off) perm.
+Proof. exact sus_f_partial. Qed.
+Print Assumptions C17_sus_float_partial.
+
+(** binary64 model, refuted: floor/ceiling fails for p = [1,1], k = 98, offset 0.0 (50 and 48 draws; expected 49, 49) *)
+Theorem C17_sus_float_floor_ceil_refuted :
+  exists (p : list float) (order : list nat) (k : nat) (off : float) (perm sel : list nat) (i : nat),
+    Forall (fun x => 0 <= f2q x) p /\ 0 < sumQ (map f2q p) /\ Permutation order (seq 0 (length p)) /\ (0 < k)%nat /\
+    0 <= f2q off /\ f2q off < sumQ (map f2q p) / inject_Z (Z.of_nat k) /\ PrimFloat.ltb off (sus_dist_f (fsum p) k) = true /\
+    Permutation perm (seq 0 k) /\ sus_f p order k off perm = Some sel /\ (i < length p)%nat /\
+    (Qceiling (nth i (map f2q p) 0 * inject_Z (Z.of_nat k) / sumQ (map f2q p))%Q < Z.of_nat (count_nat i sel))%Z.
+Proof. exact sus_f_floor_ceil_refuted. Qed.
+Print Assumptions C17_sus_float_floor_ceil_refuted.
+
+(** binary64 model, refuted: a zero-weight element is drawn for p = [2.5,1,0], k = 4, offset = 0.875*(1-2^-53) *)
+Theorem C17_sus_float_zero_weight_refuted :
+  exists (p : list float) (order : list nat) (k : nat) (off : float) (perm sel : list nat) (i : nat),
+    Forall (fun x => 0 <= f2q x) p /\ 0 < sumQ (map f2q p) /\ Permutation order (seq 0 (length p)) /\ (0 < k)%nat /\
+    0 <= f2q off /\ f2q off < sumQ (map f2q p) / inject_Z (Z.of_nat k) /\ PrimFloat.ltb off (sus_dist_f (fsum p) k) = true /\
+    Permutation perm (seq 0 k) /\ sus_f p order k off perm = Some sel /\ (i < length p)%nat /\
+    nth i (map f2q p) 0 == 0 /\ (0 < count_nat i sel)%nat.
+Proof. exact sus_f_zero_weight_refuted. Qed.
+Print Assumptions C17_sus_float_zero_weight_refuted.
+
+(** the code before commit 2efef9f2 (documentation of the repaired defects): strict comparison with offset 0 ... *)
+Theorem C17_sus_offset0_refuted :
+  exists (p : list Q) (k : nat) (off : Q) (sel : list nat),
+    Forall (fun x => 0 <= x) p /\ 0 < sumQ p /\ (0 < k)%nat /\ 0 <= off /\ off < sumQ p / inject_Z (Z.of_nat k) /\
+    old_walk (cumsum p) 0 (sus_ptrs_q (sumQ p) k off) = Some sel /\
+    (Qceiling (nth 0 p 0 * inject_Z (Z.of_nat k) / sumQ p)%Q < Z.of_nat (count_nat 0 sel))%Z.
+Proof. exact sus_old_offset0_refuted. Qed.
+Print Assumptions C17_sus_offset0_refuted.
+
+(** ... and numpy.arange(offset, tot, ptr_dist) producing k-1 pointers *)
+Theorem C17_sus_length_refuted :
+  exists (tot : float) (k : nat) (off : float),
+    PrimFloat.leb 0%float off = true /\ PrimFloat.ltb off (sus_dist_f tot k) = true /\
+    arange_len_f off tot (sus_dist_f tot k) <> Z.of_nat k.
+Proof. exact sus_old_arange_refuted. Qed.
+Print Assumptions C17_sus_length_refuted.
+
+(** * tiled sampling without replacement: every option is used q = nsample/n or q+1 times, q+1 exactly for the options of
+    the remainder draw (so usage differs by at most one); the output has the requested number of entries *)
+Theorem C17_tiled_even : forall (n nsample : nat) (choice perm : list nat),
+  (0 < n)%nat -> NoDup choice -> Forall (fun t => (t < n)%nat) choice -> length choice = (nsample mod n)%nat ->
+  Permutation perm (seq 0 nsample) ->
+  exists sel, tiled_sel n nsample choice perm = Some sel /\ length sel = nsample /\
+    Forall (fun t => (t < n)%nat) sel /\
+    forall i, (i < n)%nat -> count_nat i sel = (nsample / n + count_nat i choice)%nat /\ (count_nat i choice <= 1)%nat.
+Proof. exact tiled_even. Qed.
+Print Assumptions C17_tiled_even.
+
+(** with distinct options the same counts hold for the returned values *)
+Theorem C17_tiled_values : forall (a : list Z) (sel : list nat) (i : nat),
+  NoDup a -> (i < length a)%nat -> Forall (fun t => (t < length a)%nat) sel ->
+  count_z (nth i a 0%Z) (take_labels a sel) = count_nat i sel.
+Proof. exact labels_count. Qed.
+Print Assumptions C17_tiled_values.
+
+(** * axis shuffle: the result is a permutation of the array in which, for every index tuple produced by sliceaxisix
+    (one per combination of indices along the listed axes), the values selected by the tuple are permuted among
+    themselves; the tuples are pairwise disjoint and cover every position, so no value leaves its slice *)
+Theorem C17_axis_shuffle_within_slices : forall shape axis pms a r,
+  axis_shuffle shape axis pms a = inr r -> length a = prodn shape ->
+  Forall (fun pm => Permutation pm (seq 0 (length pm))) pms ->
+  length r = length a /\ Permutation r a /\
+  (forall s, In s (sax 0 shape axis) -> Permutation (slice_vals shape s r) (slice_vals shape s a)) /\
+  (forall t, (t < length a)%nat -> exists s, In s (sax 0 shape axis) /\ matches s (unravel shape t) = true) /\
+  ForallOrdPairs disj (sax 0 shape axis).
+Proof. exact axis_shuffle_within_slices. Qed.
+Print Assumptions C17_axis_shuffle_within_slices.
+
+(** sliceaxisix yields one tuple per combination of indices along the listed axes (row-major), each of the array's rank *)
+Theorem C17_sliceaxisix_shape : forall shape axis pos,
+  length (sax pos shape axis) = prodn (sel_dims pos shape axis) /\
+  Forall (fun s => length s = length shape) (sax pos shape axis).
+Proof. exact sax_shape. Qed.
+Print Assumptions C17_sliceaxisix_shape.
+
+(** * outcross shuffling *)
+(** for every table and every oracle of exchange orders (valid permutations or not): the entries are permuted, the number
+    of repeated individuals within crosses does not increase, and at most score+1 passes are made *)
+Theorem C17_outcross_multiset_monotone : forall m x pms y n, outcross m x pms = Some (y, n) ->
+  Permutation y x /\ (score m y <= score m x)%Z /\ (1 <= n <= Z.to_nat (score m x) + 1)%nat.
+Proof. exact outcross_sound. Qed.
+Print Assumptions C17_outcross_multiset_monotone.
+
+(** it stops only when no exchange of two entries lowers the number of repeats *)
+Theorem C17_outcross_local_optimum : forall m x pms y n,
+  Forall (fun pm => Permutation pm (seq 0 (length (all_pairs (length x))))) pms ->
+  outcross m x pms = Some (y, n) ->
+  forall i j, (i < j < length y)%nat -> (score m y <= score m (swap i j y))%Z.
+Proof. exact outcross_local_optimum. Qed.
+Print Assumptions C17_outcross_local_optimum.
+
+(** termination: an oracle with more entries than the initial number of repeats is never exhausted *)
+Theorem C17_outcross_terminates : forall m x pms, (Z.to_nat (score m x) < length pms)%nat ->
+  exists r, outcross m x pms = Some r.
+Proof. exact outcross_terminates. Qed.
+Print Assumptions C17_outcross_terminates.
+
+(** non-vacuity: concrete non-trivial values meet the hypotheses of the theorems above *)
+Example C17_hyps_satisfiable :
+  (* sus: weights [1/2; 0; 3; 3/2] (a zero, no ties), order by descending weight, k = 4, offset 1/4 *)
+  (Forall (fun x => 0 <= x) [1#2; 0; 3; 3#2] /\ 0 < sumQ [1#2; 0; 3; 3#2] /\
+   Permutation [2; 3; 0; 1]%nat (seq 0 4) /\ 0 <= 1#4 /\ (1#4) < sumQ [1#2; 0; 3; 3#2] / inject_Z 4 /\
+   Permutation [3; 1; 0; 2]%nat (seq 0 4) /\
+   option_map (count_nat 2) (sus_q [1#2; 0; 3; 3#2] [2; 3; 0; 1]%nat 4 (1#4) [3; 1; 0; 2]%nat) = Some 3%nat) /\
+  (* tiled: 3 options, 7 samples, remainder draw [2] *)
+  (NoDup [2%nat] /\ length [2%nat] = (7 mod 3)%nat /\ Permutation [6; 5; 4; 3; 2; 1; 0]%nat (seq 0 7)) /\
+  (* axis: 2x3 array shuffled within rows *)
+  (axis_shuffle [2; 3]%nat [0%Z] [[2; 0; 1]; [1; 0; 2]]%nat [0; 1; 2; 3; 4; 5]%Z = inr [2; 0; 1; 4; 3; 5]%Z) /\
+  (* outcross: three selfed crosses are resolved in three passes *)
+  (outcross 2 [1; 1; 2; 2; 3; 3]%Z [seq 0 15; seq 0 15; seq 0 15; seq 0 15] = Some ([3; 1; 1; 2; 2; 3]%Z, 3%nat) /\
+   score 2 [1; 1; 2; 2; 3; 3]%Z = 3%Z /\ score 2 [3; 1; 1; 2; 2; 3]%Z = 0%Z).
+Proof.
+  split; [|split; [|split]].
+  - split; [repeat constructor; apply Qle_bool_iff; reflexivity|]. split; [reflexivity|].
+    split; [apply is_perm_sound; reflexivity|]. split; [apply Qle_bool_iff; reflexivity|]. split; [reflexivity|].
+    split; [apply is_perm_sound; reflexivity | vm_compute; reflexivity].
+  - split; [repeat constructor; intros []|]. split; [reflexivity | apply is_perm_sound; reflexivity].
+  - vm_compute. reflexivity.
+  - repeat split; vm_compute; reflexivity.
+Qed.
+
+(** non-vacuity of the binary64 theorems: weights [1;2;1], k = 4, offset 0.25 — cumulative sums exact, pointers sorted and in
+    the cells of the ideal pointers; the general counting theorem's hypotheses hold for its cumulative sums and pointers *)
+Example C17_float_hyps_satisfiable :
+  let p := [1%float; 2%float; 1%float] in let order := [1; 0; 2]%nat in let k := 4%nat in let off := 0.25%float in
+  let pq := map f2q p in let cs := cumsum (gather 0 pq order) in
+  Forall2 Qeq (map f2q (fcumsum (gather 0%float p order))) cs /\ 0 <= sumQ pq / inject_Z (Z.of_nat k) /\
+  StronglySorted Qle (map f2q (sus_ptrs_f (fsum p) k off)) /\ StronglySorted Qle cs /\
+  Forall2 (fun a b => locate cs a = locate cs b) (map f2q (sus_ptrs_f (fsum p) k off)) (sus_ptrs_q (sumQ pq) k (f2q off)) /\
+  sus_f p order k off [3; 2; 1; 0]%nat = Some [2; 0; 1; 1]%nat.
+Proof.
+  cbv zeta. split; [vm_compute; repeat constructor|]. split; [apply Qle_bool_iff; vm_compute; reflexivity|].
+  split; [match goal with |- StronglySorted Qle ?l => let l' := eval vm_compute in l in change (StronglySorted Qle l') end;
+          repeat constructor; apply Qle_bool_iff; reflexivity|].
+  split; [match goal with |- StronglySorted Qle ?l => let l' := eval vm_compute in l in change (StronglySorted Qle l') end;
+          repeat constructor; apply Qle_bool_iff; reflexivity|].
+  split; [|vm_compute; reflexivity].
+  match goal with |- Forall2 _ ?a ?b => let a' := eval vm_compute in a in let b' := eval vm_compute in b in change (Forall2 (fun x y => locate (cumsum (gather 0 (map f2q [1%float; 2%float; 1%float]) [1; 0; 2]%nat)) x = locate (cumsum (gather 0 (map f2q [1%float; 2%float; 1%float]) [1; 0; 2]%nat)) y) a' b') end.
+  repeat constructor.
+Qed.
